@@ -33,6 +33,8 @@ def visitor(rp, history, answers, out, opts):
     import torch
     for via, a, b in qs[:40]:
         v = rp.cfg['via'] if via == 'd0' else via
+        if v == 'p':
+            continue
         other = 'r' if v == 'd' else 'd'
         x = rp.first.get((v, bmm.hexf(a), bmm.hexf(b)))
         y = rp.query(other, a, b)
@@ -57,6 +59,12 @@ def configs(tier):
         out.append(bmm.cfg_make(size=(2, 2), levy=levy, tol=0.1, halfway=True, cache_size=2))
     out.append(bmm.cfg_make(wrapper='path', size=(2, 2), cache_size=None))
     out.append(bmm.cfg_make(wrapper='tree', size=(2, 2), tol=0.01))
+    # intervals that do not start at 0 (t0 < 0 < t1: a split point can be exactly 0.0)
+    for levy, cache, dt in itertools.product(['none', 'space-time', 'foster'], [0, 1, 45, None], [None, 0.5]):
+        out.append(bmm.cfg_make(size=(2, 2), levy=levy, cache_size=cache, dt=dt, t0=-1., t1=1.))
+    out.append(bmm.cfg_make(size=(2, 2), levy='space-time', cache_size=2, t0=1., t1=3.))
+    out.append(bmm.cfg_make(size=(2, 2), levy='space-time', cache_size=2, tol=0.1, halfway=True, t0=-1., t1=1.))
+    out.append(bmm.cfg_make(wrapper='tree', size=(2, 2), tol=0.01, t0=-1., t1=1.))
     return out
 
 
@@ -81,7 +89,8 @@ def run(tier, seed):
     ops_big = bmm.grid_ops(bmm.G8)
     common = dict(visitor='mc.checks.c05.visitor', kinds=KINDS, keymode='answers')
     for cfg in configs(tier):
-        ops = ops_small if cfg['tol'] == 0 else bmm.grid_ops(bmm.G5)
+        g = bmm.shift_grid(bmm.G4 if cfg['tol'] == 0 else bmm.G5, cfg['t0'], cfg['t1'])
+        ops = bmm.grid_ops(g, point_eval=(cfg['wrapper'] != 'interval' or cfg['t0'] != 0. or cfg['cache_size'] == 2))
         units += ex.bfs_units(cfg, entropy, ops, 2, **common)
     for cfg in core_configs():
         if tier == 'quick':
@@ -110,6 +119,8 @@ def run(tier, seed):
     if tier == 'thorough':
         for cfg in dev_cfgs[:3]:
             units += ex.dev_units(cfg, entropy, 2000, 0, nchunks=1, **common)
+    ex.selfcheck_determinism(entropy)
+    chk.count('determinism_selfcheck_passed')
     chk.count('work_units', len(units))
     units.sort(key=lambda u: -(u.get('N', 0) * len(u.get('devsets', []))))
     for part in pmap(ex.run_unit, units):
